@@ -808,7 +808,8 @@ class Not(Logical, Prefix):
 
     @property
     def factors(self: 'Not') -> 'dsl.Predicate.Factors':
-        return self._factors(self.operand)
+        # the negation of a predicate constrains a table only if the whole predicate involves just that table
+        return Predicate.Factors(self) if len({f.origin for f in Column.dissect(self)}) == 1 else Predicate.Factors()
 
 
 class Comparison(Predicate):
